@@ -21,6 +21,8 @@ REQUIRED_COUNTERS = ["phasor_states_compared", "flux_values_compared"]
 ASSUMPTIONS = [
     "kept steps = every stride-th active step of the detector's switch; window evaluated at t*dt from the documented formulas",
     "float64/complex128 detectors, rtol 1e-9 relative to the largest expected entry",
+    "a PhasorDetector's record slots follow the fixed order Ex,Ey,Ez,Hx,Hy,Hz restricted to the listed components "
+    "(the order FieldDetector uses and the update loop implements), also when the subset is listed in another order",
 ]
 CASE_TIMEOUT = {"quick": 1200, "thorough": 3000}
 
@@ -138,6 +140,10 @@ def _one(c, r):
     ]
     specs = {}
     sub = [x for x in comps_all if rng.random() < 0.6] or ["Hy"]
+    if len(sub) > 1 and rng.random() < 0.6:
+        # the subset is *listed* in another order; the record slots keep the fixed (Ex..Hz) order of the listed
+        # components, exactly as FieldDetector's do (see ASSUMPTIONS)
+        sub = [sub[i] for i in rng.permutation(len(sub))]
     for j in range(2):
         o = opts()
         d = {"kind": "phasor", "name": f"ph{j}", "lo": lo, "hi": hi, "components": sub if j == 0 else comps_all, "wavelengths": wls, "reduce": bool(j == 1 and rng.integers(2)), "exact": exact, **o}
@@ -221,7 +227,9 @@ def _one(c, r):
         if int(placed[name]._dft_stride) != stride:
             r.violate("resolved DFT stride differs from the documented rule", {**wit, "got": int(placed[name]._dft_stride)}, sig=sig)
         if d["kind"] == "phasor":
-            idx = [["Ex", "Ey", "Ez", "Hx", "Hy", "Hz"].index(x) for x in d["components"]]
+            idx = sorted(["Ex", "Ey", "Ez", "Hx", "Hy", "Hz"].index(x) for x in d["components"])
+            if idx != [["Ex", "Ey", "Ez", "Hx", "Hy", "Hz"].index(x) for x in d["components"]]:
+                r.branch("components_listed_out_of_order")
             want = ph[:, idx]
             if d.get("reduce"):
                 V = vol(d["lo"], d["hi"])
